@@ -742,8 +742,13 @@ def classify_mismatch(idx, o, sel, got, exp, pls, sigs):
         relax.append(("abund", "C12:sqlite-abund-select-ignored",
                       " -- select(abund=True) on a SQLite manifest / index is silently ignored"))
     if kind in ("smi", "sqlmf"):
+        relax.append(("namemd5", "C12:standalone-manifest-reloads-by-name-md5",
+                      " -- StandaloneManifestIndex re-reads each listed file through manifest.to_picklist(), i.e. by (name, md5): "
+                      "a deselected signature with the same name and the same md5 as a selected one (same sequence sketched with / "
+                      "without abundance, num vs scaled with the same retained hashes, ...) comes back"))
+        # regression of the variant before cff7217 (not a known finding any more)
         relax.append(("identmd5", "C12:standalone-manifest-reloads-by-ident-md5short",
-                      " -- StandaloneManifestIndex re-reads each file through manifest.to_picklist(), i.e. by (identifier, md5[:8]): "
+                      " -- StandaloneManifestIndex re-reads each file by (identifier, md5[:8]) (the to_picklist() of before cff7217): "
                       "a deselected signature sharing both with a selected one comes back"))
 
     def sat_relaxed(s, cr, on):
@@ -761,6 +766,9 @@ def classify_mismatch(idx, o, sel, got, exp, pls, sigs):
         for combo in itertools.combinations(relax, r):
             on = {c[0] for c in combo}
             alt = [s for s in members if all(sat_relaxed(s, cr, on) for cr in chain)]
+            if "namemd5" in on:
+                keys = {(s.name, s.md5) for s in alt}
+                alt = [s for s in members if (s.name, s.md5) in keys]
             if "identmd5" in on:
                 keys = {(ident_of(s.name), s.md5[:8]) for s in alt}
                 alt = [s for s in members if (ident_of(s.name), s.md5[:8]) in keys]
